@@ -1,7 +1,7 @@
 #!/bin/bash
 # tools/try_copy.sh <patch.diff> <Cnn>... : like try_mutant.sh but on a scratch worktree (/tmp/tryrepo), /repo stays untouched.
 P=$(realpath "$1"); shift
-cd /verif
+cd "$(dirname "$0")/.."
 WT=/tmp/tryrepo_$$
 git -C /repo worktree remove --force $WT >/dev/null 2>&1
 git -C /repo worktree add -q --detach $WT HEAD || exit 9
